@@ -65,7 +65,14 @@ NestK == { [stmts |-> <<ForS("", "x", ArrE(<<IntE(10), IntE(20)>>), NoE,
                  assigned |-> b[2], locals |-> {"x", "loop"}, kind |-> "for-if", scoped |-> TRUE]
                 : b \in BodiesFor({"x"}) }
 
-Ks == ForKOK \cup IfK \cup SetK \cup MacroK \cup (IF Deep THEN NestK ELSE {c \in NestK : c.kind = "for-if"})
+(* three scopes deep: a name defined in the root and in the outer loop, read in the inner loop (and in a macro called from a loop) *)
+Nest3K == { [stmts |-> <<ForS("", "x", ArrE(<<IntE(10), IntE(20)>>), NoE,
+                            <<ForS("", "y", ArrE(<<IntE(30)>>), NoE, <<PStr("in2"), PrintS(NameE("x")), PrintS(AttrDot(AttrDot(NameE("loop"), "parent"), "index"))>>, <<>>, FALSE), PStr("in")>>, <<>>, FALSE)>>,
+             assigned |-> {}, locals |-> {"x", "y", "loop"}, kind |-> "for-for-read", scoped |-> TRUE],
+            [stmts |-> <<ForS("", "x", ArrE(<<IntE(10), IntE(20)>>), NoE, <<PrintS(AttrCall(NameE("_self"), "m", <<StrE("arg")>>)), PStr("in")>>, <<>>, FALSE)>>,
+             macro |-> MacroS("m", <<"x">>, <<ForS("", "w", ArrE(<<IntE(1)>>), NoE, <<PStr("in2"), PrintS(NameE("x"))>>, <<>>, FALSE)>>),
+             assigned |-> {}, locals |-> {"x", "w", "loop"}, kind |-> "macro", scoped |-> TRUE] }
+Ks == ForKOK \cup IfK \cup SetK \cup MacroK \cup Nest3K \cup (IF Deep THEN NestK ELSE {c \in NestK : c.kind = "for-if" \/ c.stmts[1].body[1].vn = "y"})
 
 Program(pre, c) ==
   (IF c.kind = "macro" THEN <<c.macro>> ELSE <<>>) \o pre \o <<PStr("pre")>> \o c.stmts \o <<PStr("post")>>
